@@ -15,7 +15,7 @@ FUNCTIONS = [
 BOUNDS = ("Two builders start at the same symbolic position, one in absolute and one in relative "
           "mode, and receive the same logical toolpath (absolute waypoints, expressed as offsets "
           "for the relative one). (a) moves: cell grid entry {move, rapid, move_absolute, "
-          "rapid_absolute, move inside absolute_mode()/relative_mode(), a block that switches the mode itself} x 1 or 2 waypoints; solver "
+          "rapid_absolute, move inside absolute_mode()/relative_mode(), a block that switches the mode itself} x 1 or 2 waypoints; plus MIXED sequences (one entry kind per waypoint out of {move, move_absolute, rapid_absolute, mode context, bypass move inside the opposite mode context, set_axis}; all pairs, quick: 9 triples, thorough: all triples) on builders that reached their start through public calls, compared after every waypoint; solver "
           "over start and waypoints: the interpreted machine positions after every line and the "
           "tracked positions are equal. (b) tracer shapes {arc, helix, arc_radius, circle, thread, "
           "spiral, spline(2 points), polyline(2 points)} x 2D/3D: the absolute geometry handed to "
@@ -127,6 +127,100 @@ def _make_moves(kind, nway):
     else:
         def h(ox: Finite, oy: Finite, ax: Finite, ay: Finite, bx: Finite, by: Finite):
             return core((ox, oy, 1.0), [(ax, ay, 2.0), (bx, by, -3.0)])
+    return h
+
+
+MIXED = ["move", "move_absolute", "rapid_absolute", "ctx", "ctx-bypass", "set_axis"]
+
+
+def _make_mixed(kinds):
+    """One entry kind PER waypoint, on builders that reached their start through public calls (a
+    true history: fresh builder, move to the start, mode switch). ctx-bypass = an absolute-bypass
+    move inside the opposite mode's context manager; set_axis = G92 to the waypoint's numbers
+    (both machines are renamed alike)."""
+    from gscrib import GCodeBuilder
+    from ..fixture import Rec
+
+    def core(o, ways):
+        if MODE.symbolic:
+            from ..shims import TOKENS
+            TOKENS.clear()
+        built = []
+        for rel in (False, True):
+            g = GCodeBuilder(line_endings="\\n")
+            rec = Rec()
+            g.add_writer(rec)
+            g.move(x=o[0], y=o[1], z=o[2])
+            if rel:
+                g.set_distance_mode("relative")
+            built.append((g, rec))
+        (ga, ra), (gb, rb) = built
+        cur = o
+        for kind, w in zip(kinds, ways):
+            off = tuple(w[i] - cur[i] for i in range(3))
+            kw_abs = dict(x=w[0], y=w[1], z=w[2])
+            kw_rel = dict(x=off[0], y=off[1], z=off[2])
+            if kind == "move":
+                ea, eb = attempt(ga.move, **kw_abs), attempt(gb.move, **kw_rel)
+            elif kind in ("move_absolute", "rapid_absolute"):
+                ea, eb = attempt(getattr(ga, kind), **kw_abs), attempt(getattr(gb, kind), **kw_abs)
+            elif kind == "set_axis":
+                ea, eb = attempt(ga.set_axis, **kw_abs), attempt(gb.set_axis, **kw_abs)
+            elif kind == "ctx":
+                def in_a():
+                    with ga.relative_mode():
+                        ga.move(**kw_rel)
+
+                def in_b():
+                    with gb.absolute_mode():
+                        gb.move(**kw_abs)
+                ea, eb = attempt(in_a), attempt(in_b)
+            else:   # ctx-bypass
+                def in_a():
+                    with ga.relative_mode():
+                        ga.move_absolute(**kw_abs)
+
+                def in_b():
+                    with gb.absolute_mode():
+                        gb.rapid_absolute(**kw_abs)
+                ea, eb = attempt(in_a), attempt(in_b)
+            if ea is not None or eb is not None:
+                msg = f"abs: {exc_name(ea)} {ea}; rel: {exc_name(eb)} {eb}"
+                return V("mixed-unexpected-exception", lambda: f"{kind}: {msg}")
+            cur = w
+            # after EVERY waypoint: both machines and both builders are at the waypoint
+            ctx = lambda: (f"kinds {kinds!r} start {o!r} waypoints {ways!r}: outputs {ra.text()!r} / "  # noqa: E731
+                           f"{rb.text()!r}")
+            try:
+                ma, mb = RefMachine(tokens()), RefMachine(tokens())
+                for line in split_lines(ra.text()):
+                    ma.run_line(line)
+                for line in split_lines(rb.text()):
+                    mb.run_line(line)
+            except Malformed as mf:
+                return V("mixed-malformed-output", str(mf))
+            for i, a in enumerate("XYZ"):
+                if not num_eq(ma.pos[a], w[i]) or not num_eq(mb.pos[a], w[i]):
+                    return V("mixed-machine-not-at-the-waypoint",
+                             lambda: f"after {kind}: axis {a}: absolute run at {ma.pos[a]!r}, relative run "
+                                     f"at {mb.pos[a]!r}, waypoint {w[i]!r}; {ctx()}")
+                if not num_eq(ga.position[i], w[i]) or not num_eq(gb.position[i], w[i]):
+                    return V("mixed-tracked-position-not-at-the-waypoint",
+                             lambda: f"after {kind}: {tuple(ga.position)!r} vs {tuple(gb.position)!r}; {ctx()}")
+            if gb.distance_mode.value != "relative" or ga.distance_mode.value != "absolute" or \
+                    ma.relative or not mb.relative:
+                return V("mixed-mode-not-preserved",
+                         lambda: f"after {kind}: builders {ga.distance_mode} {gb.distance_mode}, machines "
+                                 f"relative={ma.relative}/{mb.relative}; {ctx()}")
+        reached("compared")
+        return None
+
+    if len(kinds) == 2:
+        def h(ox: Finite, oy: Finite, ax: Finite, ay: Finite, bx: Finite, by: Finite):
+            return core((ox, oy, 1.0), [(ax, ay, 2.0), (bx, by, -3.0)])
+    else:
+        def h(ox: Finite, ax: Finite, ay: Finite, bx: Finite, cx: Finite):
+            return core((ox, 0.5, 1.0), [(ax, ay, 2.0), (bx, -1.25, -3.0), (cx, 2.75, 0.5)])
     return h
 
 
@@ -312,6 +406,15 @@ def cells(tier):
         for nway in (1, 2):
             out.append(Cell(f"moves|{kind}|waypoints={nway}", _make_moves(kind, nway), budget_s=budget,
                             must_reach=("compared",), entry=f"GCodeBuilder.{kind}"))
+    import itertools
+    seqs = list(itertools.product(MIXED, repeat=2))
+    if tier == "quick":
+        seqs += [("move", x, "move") for x in MIXED] + [("ctx-bypass", x, "ctx") for x in MIXED[:3]]
+    else:
+        seqs += list(itertools.product(MIXED, repeat=3))
+    for seq in seqs:
+        out.append(Cell("mixed|" + ",".join(seq), _make_mixed(seq), budget_s=budget,
+                        must_reach=("compared",), entry="GCodeBuilder (mixed entry kinds, true history)"))
     for with_f in (False, True):
         out.append(Cell(f"parametric-emission|F={with_f}", _make_parametric(with_f), budget_s=budget,
                         must_reach=("compared",), entry="PathTracer.parametric (emission loop)"))
